@@ -893,6 +893,53 @@ func runSkip(sc *streamScenario, rec *recorder) {
 		return []*astits.DemuxerData{{PID: 0x1eee}}, false, nil
 	}
 	data("parserObsDs", full2, astits.DemuxerOptPacketsParser(withData))
+	if sc.Run.API == "longskip" {
+		// a very long run of skipped packets (more than 65 536 in a row, on one PID) in front of a few kept ones: counted, not listed
+		rg := newRng(sc.Seed ^ 0x1919)
+		for _, nskip := range []int{65535, 65536, 65537, 131075} {
+			var long, kept []byte
+			for i := 0; i < nskip; i++ {
+				f := pktSpec{PID: 0x1ffd, K: "null", CC: i % 16}
+				b := packetBytes(&f, nil, rg)
+				b[1], b[2] = 0x1f, 0xfd
+				long = append(long, b...)
+			}
+			for i := 0; i < 5; i++ {
+				b := mk(0x1ff0, i, byte(0x40+i))
+				long = append(long, b...)
+				kept = append(kept, b...)
+			}
+			ncb := 0
+			skipper := func(p *astits.Packet) bool {
+				ncb++
+				return p.Header.PID == 0x1ffd
+			}
+			var got, want []string
+			for pass, st := range [][]byte{long, kept} {
+				var opts []func(*astits.Demuxer)
+				if pass == 0 {
+					opts = append(opts, astits.DemuxerOptPacketSkipper(skipper))
+				}
+				dmx := newDemuxer(bytes.NewReader(st), sc.Run, opts...)
+				for k := 0; k < 20; k++ {
+					p, err := dmx.NextPacket()
+					if err != nil {
+						break
+					}
+					if pass == 0 {
+						got = append(got, hdrDigest(p))
+					} else {
+						want = append(want, hdrDigest(p))
+					}
+				}
+			}
+			same := len(got) == len(want)
+			for i := 0; same && i < len(got); i++ {
+				same = got[i] == want[i]
+			}
+			rec.ev(M{"ev": "longskip", "npkts": nskip + 5, "ncb": ncb, "nret": len(got), "nfiltered": len(want), "same": same})
+		}
+	}
 }
 
 func pidOfSpec(p *pktSpec) int {
